@@ -106,6 +106,37 @@ func runC13(c *core.Ctx) {
 		c13One(c, t, ch, l, k)
 		c.Obs("large_allocs", 1)
 	}
+	// "round" total capacities (powers of two, their neighbours and 3*2^k,
+	// decimal and audio block sizes) split over the channel counts that divide
+	// them: a size-classed fast path is keyed by the total
+	var totals []int
+	for sh := 4; sh <= 16; sh++ {
+		totals = append(totals, 1<<sh, 3<<(sh-2))
+		if sh%3 == 0 {
+			totals = append(totals, 1<<sh-1, 1<<sh+1)
+		}
+	}
+	totals = append(totals, 100, 1000, 10000, 100000, 441, 4410, 44100, 480, 4800, 48000, 960, 1920, 1152, 576)
+	ti := 0
+	for _, total := range totals {
+		for _, ch := range []int{1, 2, 3, 4, 6, 8, 16, 64} {
+			if total%ch != 0 {
+				continue
+			}
+			k := total / ch
+			for _, l := range []int{0, k, k / 2} {
+				ti++
+				if !c.Mine(ti) {
+					continue
+				}
+				// two element types per shape, rotating through all of them
+				for j := 0; j < 2; j++ {
+					c13One(c, dyn.Types[(ti*2+j)%len(dyn.Types)], ch, l, k)
+					c.Obs("round_total_allocs", 1)
+				}
+			}
+		}
+	}
 	// independence of simultaneously live allocations
 	for g := 0; g < c.Pick(120, 12000); g++ {
 		t := dyn.Types[r.Intn(len(dyn.Types))]
